@@ -6,6 +6,7 @@ PAYLOADS = ["pl", "a==b", "==", "SELECT", "CURRENT DATE", "CURRENT TIMESTAMP x",
             "é", "日本語", "😀", "a b", " ", "FROM t WHERE", "1 + 2", ",", "NULL", "!=", "<=>", "a.b", "%", "x_1", "CURRENT_DATE", "UNION ALL", "\\n", "it s", "{#}", "#{x}",
             "a'b", 'a"b', "a`b", "*/", "\n",
             "cross", "USING", "sort", "Distribute", "cluster", "left", "join", "on", "as", "limit", "union", "where", "order", "group", "partition", "over", "null", "true", "and", "not", "in", "is",
+            "total\n", "\nx", "x\n\n", "x ", " x", "x\t", "x\r", "x\u3000", "x.", ".x", "903", "1x", "x-1", "_", "$", "a b c",
             "a\\tb", "\\d+", "C:\\\\dir", "\\\\", "x\\%y", "\\n\\r", "\\", "ab\\"]
 # region kind -> (open, close, forbidden substrings)
 REGIONS = {"sq": ("'", "'", ["'"]), "dq": ('"', '"', ['"']), "bq": ("`", "`", ["`"]), "block": ("/*", "*/", ["*/", "*"]),
